@@ -252,7 +252,7 @@ def run_check(pid, tier, replay=None):
         env["VERIF_CASE"] = str(case)
     else:
         env.pop("VERIF_CASE", None)
-    wd = WATCHDOG[tier]
+    wd = int(os.environ.get("VERIF_WATCHDOG_S") or WATCHDOG[tier])  # override only for testing the driver itself
     cmd = ["timeout", "-s", "QUIT", "-k", "30", str(wd), binpath, "-test.run", "^TestCheck$", "-test.timeout", "0", "-test.v"]
     with open(os.path.join(rundir, "child.out"), "w") as fo:
         p = subprocess.run(cmd, cwd=os.path.join(HARNESS, pid.lower()), env=env, stdout=fo, stderr=subprocess.STDOUT)
@@ -284,6 +284,19 @@ def run_check(pid, tier, replay=None):
                 if len(parts) == 2:
                     (started if parts[0] == "start" else ended).add(parts[1])
         open_cases = sorted(started - ended, key=lambda s: int(s))[:16]
+        # violations journalled before the child stopped are refuted oracles all the same
+        vj = os.path.join(rundir, "violations.jsonl")
+        if os.path.exists(vj):
+            seen = {}
+            for line in open(vj, errors="replace"):
+                try:
+                    v = json.loads(line)
+                except ValueError:
+                    continue
+                ent = seen.setdefault(v["sig"], [v["what"], v.get("replay") or vj, 0])
+                ent[2] += 1
+            for sig, (what, replay, n) in sorted(seen.items()):
+                violations.append((sig, "%s (x>=%d, run did not finish)" % (what, n), replay))
         if child_rc in (124, 137) or (child_rc == 2 and "SIGQUIT" in tail[:20000] and "panic:" not in tail):
             inconclusive.append("watchdog (%ds) fired; open cases %s" % (wd, open_cases))
         else:
